@@ -81,7 +81,9 @@ class Engine:
         self.statistics = create_mlmc_statistics(
             mc_paths=self.configuration.initial_mc_paths,
             underlying_density=underlying_density,
-            initial_level=self.configuration.initial_level,
+            initial_level=min(
+                self.configuration.initial_level, self.configuration.maximum_level
+            ),
             control_variates=self.configuration.control_variates,
             payoff_dimension=product.payoff.dimension(),
             process_representation=self.coupling_process.model.process_representation,
@@ -174,8 +176,8 @@ class Engine:
         df = self.coupling_process.fine_process.df(product.maturity)
 
         N0 = self.configuration.initial_mc_paths
-        L = self.configuration.initial_level
         level_max = self.configuration.maximum_level
+        L = min(self.configuration.initial_level, level_max)
         cr = self.configuration.convergence_rates
         alpha_0, beta_0, gamma_0 = cr.alpha, cr.beta, cr.gamma
 
